@@ -23,4 +23,5 @@ func init() {
 	twin("C01", "remote-addr-via-local", "proxy.go", "\treq.RemoteAddr = conn.RemoteAddr().String()\n", "\tra := conn.RemoteAddr().String()\n\treq.RemoteAddr = ra\n")
 	mut("C01", "close-on-unknown-length", "proxy.go", "\tif req.Close || res.Close || p.Closing() {", "\tif req.Close || res.Close || res.ContentLength < 0 || p.Closing() {", "C01.R3", "marked close only")
 	mut("C01", "errclose-without-close-request", "proxy.go", "\tvar closing error\n", "\tvar closing error\n\tif res.StatusCode >= 500 {\n\t\tclosing = errClose\n\t}\n", "C01.R3", "ends the connection only")
+	mut("C01", "settimeout-drops-argument", "proxy.go", "\tp.timeout = timeout\n", "\t_ = timeout\n", "C01.R5", "SetTimeout stores its argument")
 }
